@@ -240,6 +240,9 @@ def tweak_misc(rng):
     for _ in range(6):
         t = rng.scalar(0.7); op = rng.choice(['ec', 'xonly']); flags = rng.choice(['-', '-', 'o'])
         lines.append(('musig_%s_tweak_add %s %s %s' % (op, flags, cache, h32(t)), ('tweak', '%s-%s-%s' % (op, 'ov' if t >= N else 'zero' if t == 0 else 'ok', flags))))
+    for t in (0, 1, N - 1, N):                     # boundary tweaks, both functions, always (BIP-327 ApplyTweak accepts the zero tweak)
+        for op in ('ec', 'xonly'):
+            lines.append(('musig_%s_tweak_add - %s %s' % (op, cache, h32(t)), ('tweak', '%s-%s-fixed' % (op, 'ov' if t >= N else 'zero' if t == 0 else 'edge'))))
     bad = ':'.join(['f4adbbde'] + f[1:])
     lines.append(('musig_xonly_tweak_add - %s %s' % (bad, h32(5)), ('tweak', 'bad-magic')))
     lines.append(('musig_ec_tweak_add - _ %s' % h32(5), ('tweak', 'null-cache')))
